@@ -16,7 +16,8 @@ RULE = ("requests `tof64|tof32 D<c>:<s>` -> bit pattern; oracle: exact round-hal
         "constructed: for random floats f of every binade in range the exact midpoint m between f and its successor, "
         "then for every scale the Decimals floor(m*10^s) + {-2..2}; exact ties where m*10^s is an integer; values "
         "straddling powers of two; integral values with non-zero scale; 0 @ s; the regression inputs of issues "
-        "#13/#14. Non-trivial = within 2 decimal ulps of a float midpoint or a power of two")
+        "#13/#14; plus `probe --sweep-tof`: millions of pseudo-random and structured Decimals per run compared in-process "
+        "with what Rust std's correctly rounded parser makes of the decimal text (a second, independent oracle). Non-trivial = within 2 decimal ulps of a float midpoint or a power of two")
 BUILDS = {"quick": [("dev", ()), ("release", ())],
           "thorough": [("dev", ()), ("release", ()), ("release", ("packed",)), ("o0-nochk", ())]}
 MODE_INDEPENDENT = True      # half of every batch runs under a non-default thread rounding mode
@@ -108,4 +109,18 @@ def gen(rng, tier, shard, batch):
     return reqs
 
 
-main = C.standard_main(sys.modules[__name__])
+def main(tier, seed):
+    """Line-protocol monitor with the Python oracle, then an in-process bulk monitor against a second, independent
+    oracle: Rust std's correctly rounded decimal-string parser (`probe --sweep-tof`)."""
+    from .. import build as B
+    code, ev = E.run_property(sys.modules[__name__], tier, seed)
+    binary = B.build("release", ())
+    n = 400000 if tier == "quick" else 20000000
+    sw = E.run_sweep(binary, ["--sweep-tof", n, seed, E.NCPU])
+
+    def rl(ex):
+        parts = ex.split(" ")
+        return "%s %s" % (parts[1], parts[2])
+    code = E.fold_sweep(ID, code, ev, "std_parse_crosscheck", sw, tier, seed, rl)
+    E.write_evidence(ID, ev)
+    return code
